@@ -53,6 +53,11 @@ def runOfJson (j : Json) : Except String Run := do
   let objs ← match jopt j "objs" with
     | some a => if a.isNull then pure [] else (← asList a).mapM manifestOfJson
     | none => pure []
+  -- the same id twice in one apply set: the library hands every id's LAST manifest to the apply task (`HydrateSetList` maps ids
+  -- to objects); the run model is stated for apply sets with one manifest per id, so the set is normalised here — the first
+  -- occurrence keeps its place, the last one provides the content
+  let objs := (objs.foldl (fun (acc : List Manifest) m =>
+      if acc.any (fun x => x.id == m.id) then acc.map (fun x => if x.id == m.id then m else x) else acc ++ [m]) [])
   let failGet ← match jopt j "failGet" with | some a => idsOfJson a | none => pure []
   let envDel ← match jopt j "envDel" with | some a => idsOfJson a | none => pure []
   let initial ← match jopt j "initial" with | some a => idsOfJson a | none => pure []
@@ -97,11 +102,38 @@ def evJson : Ev → Json
   | .status id st => Json.arr #["status", idToJson id, st]
   | .validation ids k => Json.arr #["validation", idsToJson (sortIds ids), k]
 
+/-- the plan event lists the ids handed to the inventory task as the caller gave them: an id that occurs twice in the apply set
+occurs twice there (and once in the apply and wait groups).  The model's apply sets have one manifest per id (see `runOfJson`), so
+repetitions inside one group's id list are dropped before comparing. -/
+def dedupJson (l : List Json) : List Json :=
+  l.foldl (fun acc x => if acc.any (· == x) then acc else acc ++ [x]) []
+
+def canonInit (e : Json) : Json :=
+  match e with
+  | Json.arr a =>
+    if a.size = 2 && a[0]! == Json.str "init" then
+      match a[1]! with
+      | Json.arr gs => Json.arr #[a[0]!, Json.arr (gs.map fun g => match g with
+          | Json.arr ga => if ga.size = 3 then (match ga[2]! with
+              | Json.arr ids => Json.arr (ga.set! 2 (Json.arr (dedupJson ids.toList).toArray))
+              | _ => g) else g
+          | _ => g)]
+      | _ => e
+    else e
+  | _ => e
+
+/-- an invalid object that occurs twice in the apply set is reported by two identical validation events (one per copy): the first is kept -/
+def dropRepeatedValidation (es : List Json) : List Json :=
+  let isVal (e : Json) : Bool := match e with | Json.arr a => a.size > 0 && a[0]! == Json.str "validation" | _ => false
+  (es.foldl (fun (acc : List Json) e => if isVal e && acc.any (· == e) then acc else e :: acc) []).reverse
+
 def canonEvents (j : Json) : Json :=
   match j with
-  | Json.arr es => Json.arr (es.map fun e => match e with
-      | Json.arr a => if a.size = 5 then (match a[4]! with | Json.str r => Json.arr (a.set! 4 (Json.str (canonReason r))) | _ => e) else e
-      | _ => e)
+  | Json.arr es0 =>
+    let es := (dropRepeatedValidation es0.toList).toArray
+    Json.arr (es.map fun e => match canonInit e with
+      | Json.arr a => if a.size = 5 then (match a[4]! with | Json.str r => Json.arr (a.set! 4 (Json.str (canonReason r))) | _ => Json.arr a) else Json.arr a
+      | e' => e')
   | _ => j
 
 def mutJson (m : MutRec) : Json :=
@@ -122,11 +154,21 @@ def canonSnap (j : Json) : Json :=
 
 def canonRun (j : Json) : Json :=
   let j := match jopt j "final" with | some f => j.setObjVal! "final" (canonSnap f) | none => j
+  -- validation events dropped as repetitions (they all precede the plan event, hence every request): the event index a request
+  -- is tagged with moves down by their number
+  let dropped : Nat := match jopt j "events" with
+    | some (Json.arr es) => es.size - (dropRepeatedValidation es.toList).length
+    | _ => 0
   let j := match jopt j "events" with | some es => j.setObjVal! "events" (canonEvents es) | none => j
   match jopt j "muts" with
   | some (Json.arr ms) =>
     j.setObjVal! "muts" (Json.arr (ms.map (fun m => match m with
-      | Json.arr a => if a.size = 9 then Json.arr (a.set! 8 (canonSnap a[8]!)) else m
+      | Json.arr a => if a.size = 9 then
+          let a := a.set! 8 (canonSnap a[8]!)
+          let a := if dropped = 0 then a else match a[7]! with
+            | Json.num n => a.set! 7 (Json.num (JsonNumber.fromInt (n.mantissa - (dropped : Int))))
+            | _ => a
+          Json.arr a else m
       | _ => m)))
   | _ => j
 
@@ -378,9 +420,69 @@ def handleSysReal : Handler := fun i o => do
   let obsI ← oRuns.mapM obsOfJson
   let snap0 ← snapOfJson (← jget o "pre")
   let hist : Spec.History := { pre := pre, snap0 := snap0, runs := runs }
+  -- every whole-run predicate judges the implementation's behaviour (what the real watcher reports feeds the dependency
+  -- filters and the wait phases: C04 / C05; what is sent and stored: C01 / C02)
+  let verdicts := ["C13", "C12", "C05", "C04", "C02", "C01"].map (fun p => Spec.checkHistory p hist obsI)
+  let spec := verdicts.all (·.1)
+  let why := String.intercalate " | " ((verdicts.filter (fun v => !v.1)).map (·.2))
+  let region := if spec then none else Spec.regionOf why
+  return { model := mj, agree := agree, spec := spec, specModel := true, nontrivial := runs.length ≥ 1,
+           note := why, tags := ["sys-real"], region := region }
+
+/-- domain `pre-cancel`: the LAST run of the history is a dry-run started under an already cancelled context.  Accepted are
+exactly: nothing started (the events before the first group event, then the context error); the un-cancelled run cut right after the Finished event of one of its tasks,
+followed by the context error; the complete un-cancelled run (the runner never took the cancellation before the queue was
+empty).  In every case: C13 and C12 on the implementation's stream, the channel closed, the store unchanged by the run. -/
+def handlePreCancel : Handler := fun i o => do
+  if let some (Json.str why) := jopt o "crash" then
+    return { model := Json.null, agree := false, spec := false, specModel := true, nontrivial := true,
+             note := "the run did not end: " ++ why, tags := ["crash"], region := none }
+  let pre ← (← asList (← jget i "pre")).mapM manifestOfJson
+  let runs ← (← asList (← jget i "runs")).mapM runOfJson
+  let c0 : Cluster := pre.foldl (fun c m => c.putPre m) {}
+  let n := runs.length
+  let (cPrev, stsRev) := (runs.take (n - 1)).foldl (fun (acc : Cluster × List St) r =>
+      let s := runOne acc.1 r
+      (s.cl, s :: acc.2)) (c0, [])
+  let last ← match runs.getLast? with | some r => pure r | none => throw "pre-cancel: no run"
+  let full := runOne cPrev { last with cancel := .never }
+  let oRuns ← asList (← jget o "runs")
+  let canon (r : Json) : Json := canonRun ((r.setObjVal! "closed" (jboolD r "closed" false)).setObjVal! "late" ((jint r "late").toOption.getD 0))
+  let oLast := canon (oRuns.getLast?.getD Json.null)
+  let evsOf (r : Json) : List Json := match jopt r "events" with | some (Json.arr a) => a.toList | _ => []
+  let fullJ := runJson full
+  let eI := evsOf oLast
+  let eF := evsOf fullJ
+  let isFinished (e : Json) : Bool := match e with
+    | Json.arr a => a.size == 4 && a[0]! == Json.str "group" && a[3]! == Json.str "Finished" | _ => false
+  let isGroup (e : Json) : Bool := match e with | Json.arr a => a.size == 4 && a[0]! == Json.str "group" | _ => false
+  let cancelEv : Json := Json.arr #["error", "canceled"]
+  let cutOk : Bool := match eI.reverse with
+    | last :: revP =>
+      let p := revP.reverse
+      last == cancelEv && p == eF.take p.length &&
+        ((match p.getLast? with | some e => isFinished e | none => false) || !(p.any isGroup))
+    | [] => false
+  let nothing := cutOk && !(eI.any isGroup)
+  let which := if nothing then "nothing-started" else if eI == eF then "complete" else if cutOk then "cut" else "neither"
+  -- the earlier runs agree exactly; the last run changes nothing (dry-run) and its requests are a prefix of the full run's
+  let earlierOk := (oRuns.take (n - 1)).map (fun r =>
+      let r := canon r
+      Json.mkObj [("events", (jopt r "events").getD Json.null), ("final", (jopt r "final").getD Json.null)]) ==
+    stsRev.reverse.map (fun s => let r := runJson s
+      Json.mkObj [("events", (jopt r "events").getD Json.null), ("final", (jopt r "final").getD Json.null)])
+  let finalOk := (jopt oLast "final") == (jopt fullJ "final")
+  let obsI ← oRuns.mapM obsOfJson
+  let snap0 ← snapOfJson (← jget o "pre")
+  let hist : Spec.History := { pre := pre, snap0 := snap0, runs := runs }
   let (s13, why13) := Spec.checkHistory "C13" hist obsI
   let (s12, why12) := Spec.checkHistory "C12" hist obsI
-  return { model := mj, agree := agree, spec := s13 && s12, specModel := true, nontrivial := runs.length ≥ 1,
-           note := (if s13 then "" else why13) ++ (if s12 then "" else why12), tags := ["sys-real"], region := none }
+  let (s10, why10) := Spec.checkHistory "C10" hist obsI
+  let closed := jboolD oLast "closed" false
+  let spec := s13 && s12 && s10 && closed
+  return { model := fullJ, agree := which != "neither" && earlierOk && finalOk, spec := spec, specModel := true, nontrivial := true,
+           note := (if s13 then "" else why13) ++ (if s12 then "" else why12) ++ (if s10 then "" else why10) ++
+                   (if closed then "" else "C13: the event channel of a run started under a cancelled context did not close"),
+           tags := [s!"pre-cancel:{which}"], region := none }
 
 end CliUtils.Drv.SysD
